@@ -224,6 +224,8 @@ public:
      * @return the number of segments
      */
     size_t segments_count() const {
+        if (levels.empty()) // no level is stored when the only segment is the root (or when the index is empty)
+            return n > 0 ? 1 : 0;
         return levels.back().size();
     }
 
